@@ -4,16 +4,31 @@ From PF Require Import Arr Net Elev Glue.
 Local Open Scope Z_scope.
 
 Definition mask_opt15 (has : Z) (l : list Z) : option (list bool) := if has =? 0 then None else Some (bs l).
+Fixpoint zlist_eqb (a b : list Z) : bool :=
+  match a, b with
+  | [], [] => true
+  | x :: a', y :: b' => (x =? y) && zlist_eqb a' b'
+  | _, _ => false
+  end.
+
+Definition run_dig (ds : list nat) (args : list (list Z)) : option (list Z) :=
+  dig_d4 ds (argn 3 args) (argn 4 args) (mask_opt15 (argz 5 args) (arg 6 args)) (argz 7 args)
+         (negb (argz 8 args =? 0)) (ns (arg 1 args)) (arg 2 args).
 
 Definition run_c15 (k : Z) (args : list (list Z)) : list (list Z) :=
-  if k =? 1501 then [fix1d (arg 0 args)]
+  if k =? 1500 then [[0]]
+  else if k =? 1501 then [fix1d (arg 0 args)]
   else
   let ds := net_in (arg 0 args) in
-  if k =? 1502 then [adjust fix1d ds (ns (arg 1 args)) (arg 2 args)]
+  let sq := ns (arg 1 args) in
+  if k =? 1502 then [adjust fix1d ds sq (arg 2 args)]
   else if k =? 1503 then
-    match dig_d4 ds (argn 3 args) (argn 4 args) (mask_opt15 (argz 5 args) (arg 6 args)) (argz 7 args)
-                 (negb (argz 8 args =? 0)) (ns (arg 1 args)) (arg 2 args) with
-    | Some e => [[1]; e]
-    | None => [[0]]
-    end
+    match run_dig ds args with Some e => [[1]; e] | None => [[0]] end
+  else if k =? 1504 then
+    (* the object's own order: it must be a complete topological order and the model run on it must
+       give the implementation's result (arg 3) *)
+    [[zb (check_topo ds sq); zb (check_complete ds sq); zb (zlist_eqb (adjust fix1d ds sq (arg 2 args)) (arg 3 args))]]
+  else if k =? 1507 then
+    [[zb (check_topo ds sq); zb (check_complete ds sq);
+      zb (match run_dig ds args with Some e => zlist_eqb e (arg 9 args) | None => false end)]]
   else [[-999]].
